@@ -13,10 +13,8 @@ else
   git -C /repo worktree add -q --detach $WT HEAD || exit 2
   git -C $WT apply "$PATCH" || { echo "patch does not apply"; git -C /repo worktree remove --force $WT; exit 2; }
 fi
-# evidence must only ever come from the unchanged tree: keep the committed file aside while the patched tree is checked
-cp /verif/evidence/$ID.json /verif/.work-evidence-$ID.json 2>/dev/null
-cd /verif && GLUE_VERIF_ROOT=$WT ./check $ID $TIER ${ONLY:+--only $ONLY} 2>&1 | grep -v "^Traceback\|^  " | tail -${LINES_OUT:-6}
+# evidence must only ever come from the unchanged tree: the run against the patched tree does not write it
+cd /verif && VERIF_NO_EVIDENCE=1 GLUE_VERIF_ROOT=$WT ./check $ID $TIER ${ONLY:+--only $ONLY} 2>&1 | grep -v "^Traceback\|^  " | tail -${LINES_OUT:-6}
 rc=${PIPESTATUS[0]}
 if [ -n "${SEEDTEST_INPLACE:-}" ]; then git -C /repo checkout -- . ; else git -C /repo worktree remove --force $WT; fi
-[ -f /verif/.work-evidence-$ID.json ] && mv /verif/.work-evidence-$ID.json /verif/evidence/$ID.json
 echo "seedtest $ID rc=$rc"
